@@ -111,6 +111,8 @@ fn main() {
                 let _ = t;
                 if let Some(why) = &cx.skip {
                     writeln!(fi, "{} skip", id).unwrap();
+                    // (an overflow of the harness rationals voids the whole case, failures included: inner catch_unwind blocks turn
+                    //  the overflow into 'panicked' verdicts that are artefacts of the harness arithmetic, not of the code under test)
                     writeln!(fo, "{} skip {}", id, why).unwrap();
                 } else {
                     writeln!(fi, "{} {}", id, resp.unwrap()).unwrap();
